@@ -61,6 +61,8 @@ def run(ctx, obs):
     for m in ('subset', 'subsample', 'subset_pattern', 'subsample_pattern'):
         selection_consults_descriptor(ctx, obs, R + 'RDMs.' + m)
     subset_pattern_pairing(ctx, obs)
+    from .c01 import partial_placement
+    partial_placement(ctx, obs)
     keep_index(ctx, obs)
     co_permutation(ctx, obs)
     reorder(ctx, obs)
